@@ -1,7 +1,27 @@
 package main
 
-import "github.com/vektah/gqlparser/v2/zz_verif/gen"
+import (
+	"fmt"
 
-func buildPoolsGen(r *gen.Rng, s *Session) { buildPoolsCorpus(r, s) }
+	"github.com/vektah/gqlparser/v2/zz_verif/gen"
+)
 
-func c11PoolGen(r *gen.Rng) (NamedText, []string) { return c11PoolCorpus(r) }
+// buildPoolsGen fills a C10 session's pools from the typed generator: the valid
+// schema, up to two faulty variants of it (LoadSchema error determinism), and
+// documents that are valid by construction or carry 1-3 injected faults.
+func buildPoolsGen(r *gen.Rng, s *Session) {
+	nFaulty := r.Weighted([]int{3, 3, 1})
+	p := gen.GenPoolFor(r, nFaulty, r.Range(1, 6), 7)
+	s.Schemas = append(s.Schemas, NamedText{"gen.graphql", p.Schema})
+	for i, f := range p.FaultySchema {
+		s.Schemas = append(s.Schemas, NamedText{fmt.Sprintf("gen-faulty%d.graphql", i), f})
+	}
+	s.Docs = p.Docs
+}
+
+// c11PoolGen: one generated schema that loads, and documents over it, most of
+// them valid (coercion, argument maps and formatting need validated documents).
+func c11PoolGen(r *gen.Rng) (NamedText, []string) {
+	p := gen.GenPoolFor(r, 0, r.Range(2, 8), 3)
+	return NamedText{"gen.graphql", p.Schema}, p.Docs
+}
